@@ -331,10 +331,11 @@ def run_impl(impl, component, cases, timeout=600):
                 # (machine overload, a neighbour's goroutine) does not repeat; a crash the case causes does.
                 text1 = "reset\n" + "".join(op + "\n" for op in cases[i].ops)
                 rc1, lines1, err1 = run_lines(impl_cmd(impl, component), text1, min(timeout, 300))
-                if rc1 == 0 and len(lines1) == n and lines1[0] == "reset":
+                # (a `go test` binary prints PASS/ok lines after the case's own output)
+                if rc1 == 0 and len(lines1) >= n and lines1[0] == "reset" and not any(l.startswith("CRASH") for l in lines1[:n]):
                     log("[flake] %s: case crashed (%s) in a batch but completes alone; using the isolated run" % (component, reason[:80]))
                     FLAKES.append("%s: %s" % (component, reason[:120]))
-                    results[i] = lines1[1:]
+                    results[i] = lines1[1:n]
                     done.append(i)
                     crashed = True
                     break
